@@ -4,7 +4,7 @@
    JsonString.v, Utf8Facts.v, TablesOk.v. *)
 From Coq Require Import Floats Permutation.
 From JM Require Import Model.Base Model.Num Model.Utf8 Model.Value Model.JsonText Model.Lexer Model.Parser Model.Interp Model.Api
-     Spec.Grammar Proofs.ValueFacts Proofs.TablesOk Proofs.Utf8Facts Proofs.JsonString Proofs.LexView Proofs.LexSpell
+     Spec.Grammar Proofs.ValueFacts Proofs.TablesOk Proofs.Utf8Facts Proofs.JsonString Proofs.LexView Proofs.LexSpell Proofs.LexText
      Inst.FloatNum Run.Checker.
 From JM Require Import gen.Tables.
 
@@ -93,6 +93,17 @@ Proof. exact (json_literal_denotes ord). Qed.
 Theorem C14_backtick_unescape : forall t, replace2 92 96 96 (lit_escape t) = t.
 Proof. exact lit_unescape. Qed.
 
+(* ---- in context: a whole token list ---- *)
+(* any list of tokens, each spelled the way the properties above say (identifier
+   as its name, quoted identifier as the JSON string of its name, raw string
+   and literal in quotes with the delimiter escaped, number as digits, operator
+   as its text) and followed by a space, is read back by the lexer as exactly
+   those tokens, types and values, then EOF *)
+Theorem C14_token_list_lexes :
+  forall l, Forall (fun t => lexable t = true) l ->
+    exists out, tokenize (text_of l) = Ok (out ++ [Token tEOF [] (zlen (text_of l)) 0]) /\ Forall2 same_tv out l.
+Proof. exact tokenize_text. Qed.
+
 (* ---- the machinery behind: cursor lexer = lexer over the remaining input;
    UTF-8 and JSON string escaping round trips ---- *)
 Theorem C14_lexer_view : forall e, tokenize e = tokenizeS e.
@@ -121,6 +132,7 @@ Print Assumptions C14_raw_denotes.
 Print Assumptions C14_literal_lexes.
 Print Assumptions C14_literal_denotes.
 Print Assumptions C14_backtick_unescape.
+Print Assumptions C14_token_list_lexes.
 Print Assumptions C14_lexer_view.
 Print Assumptions C14_utf8_round_trip.
 Print Assumptions C14_json_string_round_trip.
